@@ -16,6 +16,7 @@ structure St where
   cs : List (String × List CapEv) := []
   preds : List (Nat × TextPred) := []
   wild : Bool := false
+  qfree : Bool := true
   cur : String := ""
   curM : Array Match := #[]
   curC : Array CapEv := #[]
@@ -109,7 +110,7 @@ def runChk (s : St) (ws : List String) : String :=
     if us.any (fun m => !m.hasRoot) then
       s!"{head} clause=b judge=ok corr=- n1={us.length} n2={rs.length} mode={mode}{kind} skipped=rootless"
     else
-    let ok := judgeB keep (if mode == "w" then emptyAtEnd rng else fun _ => false) us rs
+    let ok := judgeB keep emptyRoot s.qfree us rs
     s!"{head} clause=b judge={verdict ok s!"range-{mode}{kind} expected={exp.length} got={rs.length}"} corr=- n1={us.length} n2={rs.length} mode={mode}{kind} wild={s.wild}"
   | ["c", a, b] =>
     if isMStream s a || isMStream s b then
@@ -127,7 +128,7 @@ def runChk (s : St) (ws : List String) : String :=
       s!"{head} clause=d judge={verdict (judgeDc x y (ex == "1")) s!"silent-drop-captures limit={k}"} corr=- n1={x.length} n2={y.length} exceeded={ex} limit={k}"
   | ["e", u, e, pos] =>
     let x := getC s u; let y := getC s e
-    s!"{head} clause=e judge={verdict (judgeE x y (natOf pos)) "remove-match"} corr=- n1={x.length} n2={y.length} wild={s.wild}"
+    s!"{head} clause=e judge={verdict (judgeE x y (natOf pos) s.qfree) "remove-match"} corr=- n1={x.length} n2={y.length} wild={s.wild}"
   | ["g", u, d, depth] =>
     let x := getM s u; let y := getM s d
     let full := decide ((x.filter fun m => decide (m.depth ≤ natOf depth)).map Match.key = y.map Match.key)
@@ -147,7 +148,9 @@ def step (s : St) (line : String) : IO St := do
   | ["case", id] => return { id := id }
   | ["text", h] => return { s with text := (unhexBytes h).toArray }
   | ["text"] => return { s with text := #[] }
-  | ["query", h] => return { s with wild := wildRoot (unhexBytes h) }
+  | ["query", h] =>
+    let bs := unhexBytes h
+    return { s with wild := wildRoot bs, qfree := !(bs.any fun c => c == 42 || c == 43 || c == 63) }
   | ["stream", n] => return { s with cur := n, curM := #[], curC := #[], inStream := true }
   | "m" :: ws => match parseM ws with
     | some m => return { s with curM := s.curM.push m }
